@@ -62,7 +62,25 @@ def _uncaught(em, rd, call, args, obj):
     return None
 
 
+def _make_unique(em, rd, call, args, obj):
+    # std::make_unique<T>() / std::make_unique<T[]>(n): value-initialised heap object(s) (M-mem)
+    if obj is not None:
+        return None
+    t = em.ctype_of(qt(call))
+    if t[0] != 'p':
+        return None
+    elem = em.cdecl(t[1])
+    em.lowerings['M-mem(std::make_unique)'] += 1
+    em.extern_funcs['vstd_new'] = True
+    if not args:
+        return '((%s)vstd_new(1UL, sizeof(%s)))' % (em.cdecl(t), elem)
+    if len(args) == 1:
+        return '((%s)vstd_new((unsigned long)(%s), sizeof(%s)))' % (em.cdecl(t), em.E(args[0]), elem)
+    return None
+
+
 MODELS = {
+    'make_unique': _make_unique,
     'uncaught_exceptions': _uncaught,
     'uncaught_exception': _uncaught,
     'make_pair': _make_pair,
